@@ -115,9 +115,10 @@ Proof.
   assert (Hq : forall s1 o1, PR quietA (s1, o1) (s', outs) -> PR (AC (s_core s') (fun _ => True)) (s1, o1) (s', outs)).
   { intros s1 o1 HR. eapply PR_weaken; [|exact HR]. intros w m Hm. apply AC_quiet. exact Hm. }
   destruct o; try destruct Ho; cbn [step] in H0.
-  - eapply (frame_of_PR s s []); [apply Hq; eapply handle_submit_array_PR; [|exact H0]; intros w m Hm; exact Hm | apply pop_same_r].
   - eapply (frame_of_PR s s []); [apply Hq | apply pop_same_r].
-    destruct (bad_graph_rq _ _); [inversion H0; subst; apply PR_same; reflexivity|]. eapply handle_submit_graph_PR; [|exact H0]. intros w m Hm; exact Hm.
+    destruct (bad_submit_lengths _ _); [inversion H0; subst; apply PR_same; reflexivity|]. eapply handle_submit_array_PR; [|exact H0]; intros w m Hm; exact Hm.
+  - eapply (frame_of_PR s s []); [apply Hq | apply pop_same_r].
+    destruct (bad_graph_rq _ _); [inversion H0; subst; apply PR_same; reflexivity|]. destruct (dead_dep _ _ _); [inversion H0; subst; apply PR_same; reflexivity|]. eapply handle_submit_graph_PR; [|exact H0]. intros w m Hm; exact Hm.
   - eapply (frame_of_PR s s []); [apply Hq; eapply handle_open_PR; exact H0 | apply pop_same_r].
   - eapply (frame_of_PR s s []); [apply Hq; eapply handle_close_PR; exact H0 | apply pop_same_r].
   - eapply (frame_of_PR s s []); [apply Hq; eapply handle_cancel_PR; [|exact H0]; intros w m Hm; exact Hm | apply pop_same_r].
